@@ -27,12 +27,12 @@ theorem nbeq {a b : Nat} : a.beq b = true ↔ a = b := ⟨Nat.eq_of_beq_eq_true,
 
 theorem El.beq_iff {a b : El} : a.beq b = true ↔ a = b := by
   cases a; cases b
-  simp [El.beq, nbeq, Bool.and_eq_true]
+  simp [El.beq, Bool.and_eq_true]
   tauto
 
 theorem Iso.beq_iff {a b : Iso} : a.beq b = true ↔ a = b := by
   cases a; cases b
-  simp [Iso.beq, nbeq, El.beq_iff, Bool.and_eq_true]
+  simp [Iso.beq, El.beq_iff, Bool.and_eq_true]
   tauto
 
 theorem optElIs_iff {o : Option El} {e : El} : optElIs o e = true ↔ o = some e := by
@@ -66,7 +66,7 @@ variable {α : Type}
 theorem get?_cons (k' : Nat) (v : α) (t : Index α) (k : Nat) :
     Index.get? ((k', v) :: t) k = if k' = k then some v else Index.get? t k := by
   by_cases h : k' = k
-  · simp [Index.get?, h, nbeq.mpr rfl]
+  · simp [Index.get?, h]
   · have : k'.beq k = false := by
       cases hb : k'.beq k
       · rfl
@@ -182,7 +182,7 @@ theorem lookupIsotope_number (eidx : Index El) (iidx : Index Iso) (q : Query) (h
 /-! ### equality, inequality, hashing -/
 
 theorem efEq_refl (f : EField) (a : El) : efEq f a a = true := by
-  cases f <;> simp [efEq, nbeq.mpr rfl]
+  cases f <;> simp [efEq]
 
 theorem nbeq_comm (a b : Nat) : a.beq b = b.beq a := by
   rw [Bool.eq_iff_iff, nbeq, nbeq, eq_comm]
@@ -195,7 +195,7 @@ theorem efEq_symm (f : EField) (a b : El) : efEq f a b = efEq f b a := by
   · simp only [efEq]; rw [nbeq_comm a.wNum, nbeq_comm a.wDen]
 
 theorem efEq_val {f : EField} {a b : El} (h : efEq f a b = true) : efVal f a = efVal f b := by
-  cases f <;> simp_all [efEq, efVal, nbeq]
+  cases f <;> simp_all [efEq, efVal]
 
 theorem elEq_refl (c : CmpCfg) (a : El) : elEq c a a = true := by
   simp [elEq, List.all_eq_true, efEq_refl]
@@ -219,14 +219,14 @@ theorem elEq_hash {c : CmpCfg} (hsub : ∀ f ∈ c.elHash, f ∈ c.elEq) {a b : 
 theorem elNe_eq_not {c : CmpCfg} (hsame : ∀ f, f ∈ c.elNe ↔ f ∈ c.elEq) (a b : El) :
     elNe c a b = !elEq c a b := by
   rw [Bool.eq_iff_iff]
-  simp only [elNe, elEq, List.any_eq_true, Bool.not_eq_true', Bool.not_eq_eq_eq_not, Bool.not_true,
+  simp only [elNe, elEq, List.any_eq_true, Bool.not_eq_eq_eq_not, Bool.not_true,
     List.all_eq_false]
   constructor
   · rintro ⟨f, hf, h⟩; exact ⟨f, (hsame f).mp hf, by simpa using h⟩
   · rintro ⟨f, hf, h⟩; exact ⟨f, (hsame f).mpr hf, by simpa using h⟩
 
 theorem ifEq_refl (c : CmpCfg) (f : IField) (a : Iso) : ifEq c f a a = true := by
-  cases f <;> simp [ifEq, efEq_refl, elEq_refl, nbeq.mpr rfl]
+  cases f <;> simp [ifEq, efEq_refl, elEq_refl]
 
 theorem isoEq_refl (c : CmpCfg) (a : Iso) : isoEq c a a = true := by
   simp [isoEq, List.all_eq_true, ifEq_refl]
@@ -235,7 +235,7 @@ theorem ifEq_val {c : CmpCfg} (hsub : ∀ f ∈ c.elHash, f ∈ c.elEq) {f : IFi
     (h : ifEq c f a b = true) : ifVal c f a = ifVal c f b := by
   cases f with
   | inh g => exact efEq_val h
-  | massNumber => simp_all [ifEq, ifVal, nbeq]
+  | massNumber => simp_all [ifEq, ifVal]
   | element => simp only [ifVal]; rw [elEq_hash hsub h]
 
 /-- `Isotope`: equal objects hash equally -/
@@ -338,14 +338,14 @@ theorem pyEq_false_of_name_ne {c : CmpCfg} (hE : EField.name ∈ c.elEq) (hI : I
     intro x y hxy
     simp only [elEq, List.all_eq_false]
     refine ⟨.name, hE, ?_⟩
-    simp [efEq, nbeq, hxy]
+    simp [efEq, hxy]
   cases a <;> cases b <;> simp only [pyEq, Sp.base] at *
   · exact hn _ _ h
   · exact hn _ _ h
   · exact hn _ _ (fun e => h e.symm)
   · simp only [isoEq, List.all_eq_false]
     refine ⟨.inh .name, hI, ?_⟩
-    simp [ifEq, efEq, nbeq, h]
+    simp [ifEq, efEq, h]
 
 /-! ### weights -/
 
